@@ -49,8 +49,9 @@ Definition validate_trace_width (a : Assertion) (width : Z) : bool := negb (widt
 
 Inductive VRes := VOk | VNotPow2 | VTooShort | VNotExact | VOverflow.
 
-(* validate_trace_length.  VOverflow: `values.len() * stride` exceeds usize (debug build panics;
-   the release build wraps to a value that cannot equal a power of two <= 2^63 unless ... see check) *)
+(* validate_trace_length.  VOverflow = an overflow panic of the debug build: `values.len() * stride` exceeds usize
+   (the release build wraps; both factors are powers of two, so the wrapped product is 0 and the answer is
+   TraceLengthNotExact), or the error payload of the single-assertion branch overflows. *)
 Definition validate_trace_length (a : Assertion) (n : Z) : VRes :=
   if negb (is_pow2 n) then VNotPow2
   else if is_single a then
